@@ -33,12 +33,36 @@ META = dict(
 SPEC = os.path.join(S.TLA, "SmoothLattice.tla")
 
 
+def ball_script(ev):
+    """models with a ball joint (stored quaternion scaled by 1, 2 or 1/2): frames only; they must not depend on the scale"""
+    sc = S.Script()
+    kin = ev["kin"]
+    sc.model(S.model_lines(ev))
+    sc.ok("data 0 0")
+    sc.vec("mget 0 body_parentid", "machinery:body_parentid", [0] + [b["par"] for b in ev["bodies"]], exact=True)
+    sc.oks(S.state_lines(ev))
+    sc.ok("forward 0")
+    R = [k["R"] for k in kin]
+    sc.vec("get 0 xpos", "xpos(ball joint)", S.flat([k["p"] for k in kin]), skip=3)
+    sc.vec("get 0 xmat", "xmat(ball joint)", S.flat(R), skip=9)
+    sc.vec("quatmat 0", "xquat(ball joint)", S.flat(R), skip=9)
+    sc.vec("get 0 xipos", "xipos(ball joint)", S.flat([k["c"] for k in kin]), skip=3)
+    sc.vec("get 0 site_xpos", "site_xpos(ball joint)", S.flat([k["sp"] for k in kin]))
+    sc.vec("get 0 site_xmat", "site_xmat(ball joint)", S.flat([k["sR"] for k in kin]))
+    sc.vec("get 0 geom_xpos", "geom_xpos(ball joint)", S.flat([k["sp"] for k in kin]))
+    js = [k for k, b in enumerate(ev["bodies"]) if b["jt"] != "none"]
+    sc.vec("get 0 xanchor", "xanchor(ball joint)", S.flat([kin[k]["anc"] for k in js]))
+    return sc
+
+
 def script_for(ev):
     sc = S.Script()
     n, nv = ev["n"], ev["nv"]
     kin = ev["kin"]
     # a site on the world (site id 0) and, between the sites of every ordered pair of bodies (world included), one
     # connect and one weld equality: their constraint rows are compared below
+    if ev["hasball"]:
+        return ball_script(ev)
     eqs = []
     if nv:
         for k, pr in enumerate(ev["pairs"]):
@@ -137,6 +161,10 @@ def script_for(ev):
 
 
 def sig_of(ev, label):
+    if "(ball joint)" in label:
+        sc = sorted({"%d/%d" % tuple(b["qs"]) for b in ev["bodies"] if b["jt"] == "ball"})
+        off = any(b["jt"] == "ball" and tuple(b["janc"]) != (0, 0, 0) for b in ev["bodies"])
+        return "C07:%s:quat-scale=%s:%s" % (label, ",".join(sc), "off-centre" if off else "centred")
     return "C07:%s:joints=%s" % (label, "".join(sorted(set(S.features(ev)))))
 
 
@@ -149,6 +177,8 @@ NEED = {
     "a branching tree": lambda ev: len([b for b in ev["bodies"] if b["par"] == 0]) > 1 or any(
         len([c for c in ev["bodies"] if c["par"] == k]) > 1 for k in range(1, ev["n"] + 1)),
     "a jointless body": lambda ev: any(b["jt"] == "none" for b in ev["bodies"]),
+    "an off-centre ball joint with a scaled (non-unit) quaternion, turned": lambda ev: any(
+        b["jt"] == "ball" and tuple(b["janc"]) != (0, 0, 0) and tuple(b["qs"]) != (1, 1) and b["q"] % 4 != 0 for b in ev["bodies"]),
     "two root bodies without children, frames at the origin, one static and one with a dof (MuJoCo 'simple' bodies with "
     "different dof counts)": lambda ev: any(
         a["par"] == 0 and b["par"] == 0 and a["jt"] == "none" and b["jt"] != "none" and
